@@ -166,10 +166,11 @@ func (es *ExtensionStateImpl) slash(cc icmodule.CallContext, owner module.Addres
 
 			// unbond
 			slashedUnbond, expire = account.SlashUnbond(owner, rate)
-			if expire != -1 {
+			if expire != -1 && account.Unbonds().ExpireRefCount()[expire] == 0 {
+				// the unbonding timer holds the bonder (see SetBond), not the P-Rep
 				timer := es.State.GetUnbondingTimerState(expire)
 				if timer != nil {
-					timer.Delete(owner)
+					timer.Delete(bonder)
 				} else {
 					return errors.Errorf("timer doesn't exist for height %d", expire)
 				}
